@@ -4,4 +4,4 @@ Require Import ExtrOcamlBasic.
 Require Import XV.XpAst XV.XpcLexDefs XV.XpcParseDefs.
 (* ocaml/conv.ml (prepended to every driver) mentions the constructors of Z *)
 Definition xpc_z_probe : Z := Z.succ 0%Z.
-Extraction "extracted/xpc_model.ml" compile tokenize parse str_eqb xpc_z_probe.
+Extraction "extracted/xpc_model.ml" compile_here compile tokenize parse flags_here str_eqb xpc_z_probe.
